@@ -38,8 +38,10 @@ def py_earliest(x, n, days):
 def real_decode(x, n, days):
     import numpy as np
     import moptipyapps.ttp.game_encoding as ge
-    y = np.full((days, n), 77, dtype=np.int64)     # garbage start
-    ge.map_games(np.array(x, dtype=np.int64), y)
+    # the arrays the public spaces hand out: plan in the GamePlanSpace storage type, codes in the permutation space's
+    from moptipy.utils.nputils import int_range_to_dtype
+    y = np.full((days, n), 77, dtype=int_range_to_dtype(-n, n))     # garbage start
+    ge.map_games(np.array(x, dtype=int_range_to_dtype(0, max(1, n * (n - 1) - 1))), y)
     return y.tolist()
 
 
@@ -207,15 +209,22 @@ def job_whole(n, rounds, timeout_s=300):
     return inconclusive(f"model does not replay {w}", **common)
 
 
-def job_short(n, rounds, L, timeout_s=300):
+def job_short(n, rounds, L, timeout_s=300, real_dtypes=False):
     """whole run on an arbitrary short code sequence (a prefix of a permutation): catches state carried
-    between games that the one-game step cannot see"""
+    between games that the one-game step cannot see.  With real_dtypes the plan and the code array carry the storage
+    types the public spaces give them (int8 up to 127 teams/codes, ...), and every store into a typed array must fit."""
     mg, ge = _mg()
     days = (n - 1) * rounds
+    xdt = ydt = None
+    if real_dtypes:
+        from moptipy.utils.nputils import int_range_to_dtype
+        from symx import core
+        ydt = core.dtype_of(int_range_to_dtype(-n, n))
+        xdt = core.dtype_of(int_range_to_dtype(0, n * (n - 1) - 1))
 
     def h(eng):
-        x = fresh_array("x", (L,))
-        y = fresh_array("y", (days, n))
+        x = fresh_array("x", (L,), dtype=xdt)
+        y = fresh_array("y", (days, n), dtype=ydt)
         mg(x, y)
         return util.Box(x=x, y=y, coll=None)
     eng, b = util.single_path(h)
@@ -242,7 +251,7 @@ def job_short(n, rounds, L, timeout_s=300):
             for g in range(L):
                 val = z3.If(z3.And(day[g] == d, H[g] == t), A[g] + 1, z3.If(z3.And(day[g] == d, A[g] == t), -(H[g] + 1), val))
             ok.append(lift(b.y[d, t]) == val)
-    inr = util.obligations_formula(eng.collected, "index in range")
+    inr = z3.And(util.obligations_formula(eng.collected, "index in range"), util.obligations_formula(eng.collected, "value fits dtype"))
     r = backend.solve(cons + spec, z3.Not(z3.And(inr, *ok)), timeout_s=timeout_s, label=f"short n={n} r={rounds} L={L}")
     q, st = util.qstats([r])
     common = dict(paths=1, queries=q, solver_s=st, backend=repr(r),
@@ -364,6 +373,9 @@ def jobs(tier):
         js.append(Job(f"prefix/n{n}/r{r}", job_prefix, dict(n=n, rounds=r), "earliest_slot", 300))
     for n, r, L in [(4, 2, 3), (4, 3, 3), (5, 2, 3), (4, 3, 4)] + ([(6, 2, 3), (6, 3, 4), (5, 3, 4), (4, 4, 5)] if tier == "thorough" else []):
         js.append(Job(f"short/n{n}/r{r}/L{L}", job_short, dict(n=n, rounds=r, L=L, timeout_s=600), "earliest_slot", 800))
+    # storage-type boundaries: plans of 127/128/129 days (int8 plan, day numbers beyond int8), 128 teams (int16 plan and codes)
+    for n, r, L in [(4, 43, 2), (3, 64, 2), (2, 127, 2)] + ([(66, 2, 2), (128, 1, 1), (12, 12, 2), (4, 86, 2)] if tier == "thorough" else []):
+        js.append(Job(f"short-dtype/n{n}/r{r}/L{L}", job_short, dict(n=n, rounds=r, L=L, timeout_s=600, real_dtypes=True), "earliest_slot", 800))
     for n, r in [(2, 2), (3, 1), (3, 2)] + ([(4, 1), (2, 3), (2, 4)] if tier == "thorough" else []):
         js.append(Job(f"whole/n{n}/r{r}", job_whole, dict(n=n, rounds=r, timeout_s=600), "earliest_slot", 800))
     return js
@@ -374,6 +386,8 @@ def meta(tier):
         bounds=dict(step="one game from an arbitrary mutually consistent plan (entries -n..n, no self-play), any game code 0..n(n-1)-1; "
                          "n<=8, rounds<=2 (thorough: additionally rounds 3-4 up to n=7 (n=7: 3), (8,3), (9,1), (9,2), (10,1); larger sizes end in solver timeouts and are not claimed)",
                     short="arbitrary code sequences of length 3-4 (thorough 5), n<=5 (thorough 6), whole run vs declarative plan (state carried between games)",
+                    short_dtype="arbitrary sequences of 2 codes with the plan and code arrays in the storage types the public spaces use, at the type boundaries: "
+                                "127/128/129-day plans for 2, 3 and 4 teams (thorough: 66 teams x 2 rounds, 128 teams (int16), 12x12, 258 days); every store into a typed array must fit its type",
                     whole="any code sequence of blueprint length vs declarative plan for (2,2),(3,1),(3,2) (thorough adds (4,1),(2,3),(2,4))",
                     search_space="enumerated configurations 2<=n<=8, rounds<=5 (thorough 12, 7) - configuration enumeration, not a solver verdict"),
         outside=["n > 12", "whole-run equivalence beyond the listed sizes (covered by the step + induction)"],
